@@ -135,10 +135,10 @@ func newGrp(name string, n *big.Int) *grp {
 }
 
 var (
-	grpSM2  = newGrp("sm2", ecref.SM2().N)
+	grpSM2   = newGrp("sm2", ecref.SM2().N)
 	grpSM2A5 = newGrpA5()
-	grpSM9  = newGrp("sm9", ecref.SM9G1().N)
-	grpNIST = newGrp("p256", nistP256().N)
+	grpSM9   = newGrp("sm9", ecref.SM9G1().N)
+	grpNIST  = newGrp("p256", nistP256().N)
 )
 
 // ---------------------------------------------------------------------------------------------
@@ -152,25 +152,25 @@ const (
 
 // obs is what one run of an operation showed.
 type obs struct {
-	err  error
-	out  []byte // canonical serialisation of every scalar-dependent output (valid when err == nil && bad == "")
-	leak string // non-empty: outputs that were not nil/empty although an error was returned
-	bad  string // non-empty: the operation succeeded but its output is malformed / a follow-up step failed
+	err    error
+	out    []byte // canonical serialisation of every scalar-dependent output (valid when err == nil && bad == "")
+	leak   string // non-empty: outputs that were not nil/empty although an error was returned
+	bad    string // non-empty: the operation succeeded but its output is malformed / a follow-up step failed
 	badKey string // optional finding-key suffix for bad (default "malformed-output")
 }
 
 type opDef struct {
-	name   string
-	noun   string // "nonce", "scalar", "key": used in the finding key
-	g      *grp
-	hiOff  int64 // acceptable range is [1, n-hiOff]
-	either bool  // n-1 is a don't-care value (only with hiOff == 2)
-	masked bool  // key generation with the fixed-byte XOR
-	light  bool  // API variant of another operation: content+fault and cross cases only, no same-operation sequences
-	pre    []byte // fixed bytes the operation reads BEFORE it samples the scalar (enveloped key: the 16-byte SM4 key)
-	preReads   []int // sizes of the reads that consume pre
-	extraReads []int // sizes of the reads after the scalar (IV)
-	run    func(rd io.Reader) obs
+	name       string
+	noun       string // "nonce", "scalar", "key": used in the finding key
+	g          *grp
+	hiOff      int64  // acceptable range is [1, n-hiOff]
+	either     bool   // n-1 is a don't-care value (only with hiOff == 2)
+	masked     bool   // key generation with the fixed-byte XOR
+	light      bool   // API variant of another operation: content+fault and cross cases only, no same-operation sequences
+	pre        []byte // fixed bytes the operation reads BEFORE it samples the scalar (enveloped key: the 16-byte SM4 key)
+	preReads   []int  // sizes of the reads that consume pre
+	extraReads []int  // sizes of the reads after the scalar (IV)
+	run        func(rd io.Reader) obs
 	// expect recomputes the canonical output from scalar v; pre = the bytes read before sampling, rest = stream bytes
 	// following the accepted block; extra = further stream bytes the operation must consume; ok=false: the standard
 	// says "draw another scalar".
